@@ -2,7 +2,7 @@ from shexer.core.profiling.class_profiler import RDF_TYPE_STR
 from shexer.model.shape import STARTING_CHAR_FOR_SHAPE_NAME
 from rdflib import Graph, Namespace, URIRef, RDF, BNode, XSD, Literal
 from shexer.model.statement import POSITIVE_CLOSURE, KLEENE_CLOSURE, OPT_CARDINALITY
-from shexer.utils.uri import XSD_NAMESPACE, LANG_STRING_TYPE
+from shexer.utils.uri import XSD_NAMESPACE, LANG_STRING_TYPE, remove_corners
 from shexer.model.const_elem_types import IRI_ELEM_TYPE, LITERAL_ELEM_TYPE, DOT_ELEM_TYPE, BNODE_ELEM_TYPE, \
     NONLITERAL_ELEM_TYPE
 from shexer.io.wikidata import wikidata_annotation
@@ -133,7 +133,8 @@ class ShaclSerializer(object):
         if shape.class_uri is not None:
             self._add_triple(r_shape_uri,
                              _R_SHACL_TARGET_CLASS_PROP,
-                             URIRef(shape.class_uri))  # TODO check if this is always an abs. URI, not sure
+                             URIRef(remove_corners(a_uri=shape.class_uri,
+                                                   raise_error_if_no_corners=False)))  # a shape map label keeps its corners
 
     def _add_min_iri (self, shape, r_shape_uri):
         # if shape.iri_pattern is not None:
